@@ -16,7 +16,8 @@ use core::pin::{pin, Pin};
 use core::task::{Context, Poll, RawWaker, RawWakerVTable, Waker};
 use std::panic::{catch_unwind, AssertUnwindSafe};
 
-use dev::{Dev, REv};
+use dev::{Dev, DevRaw, REv};
+use microscpi::ErrorQueue;
 use microscpi::{Adapter, Error, Interface, Write};
 use oracle::{Exp, OEv, OTree, RunSt, Tok};
 
@@ -47,6 +48,9 @@ pub enum Mode {
     Run,
     /// Interface::run with a heapless::Vec<u8, CAP> writer
     RunCap(usize),
+    /// Interface::run on the device that owns the crate's StaticErrorQueue directly (no logging wrapper): handler
+    /// calls, responses, and the queue content drained at the end are compared
+    RunRaw,
     /// the messages of the stream handed to Interface::run one at a time (same device, a fresh writer per message);
     /// reference of the second sentence of C07. Invalid (nothing compared) when a message is left partly unconsumed.
     RunEach(usize),
@@ -65,7 +69,7 @@ pub struct Scenario { pub mode: Mode, pub input: Vec<u8>, /// compare `process` 
 pub enum TEv { Read(usize), Write(Vec<u8>), Flush, Fail }
 #[derive(Debug, Default)]
 pub struct RealObs { pub log: Vec<REv>, pub out: Vec<u8>, pub flushes: Vec<usize>, pub rest: Option<usize>, pub panic: Option<String>,
-    pub trace: Vec<TEv>, pub ret: Option<String>, pub out_std: Option<Vec<u8>>, pub log_std: Option<Vec<REv>> }
+    pub trace: Vec<TEv>, pub ret: Option<String>, pub out_std: Option<Vec<u8>>, pub log_std: Option<Vec<REv>>, pub final_queue: Vec<i16> }
 
 struct LogWriter { out: Vec<u8>, flushes: Vec<usize> }
 impl Write for LogWriter {
@@ -123,6 +127,14 @@ pub fn run_real(sc: &Scenario) -> RealObs {
                 let rest2 = block_on(d2.run(&sc.input, &mut v)).len();
                 o.out_std = Some(v); o.log_std = Some(d2.log.borrow().clone());
                 if rest2 != rest { o.log_std = Some(vec![REv::Call(format!("<rest {rest2} != {rest}>"))]); }
+            },
+            Mode::RunRaw => {
+                let mut d = DevRaw::new();
+                let mut w = LogWriter { out: vec![], flushes: vec![] };
+                let rest = block_on(d.run(&sc.input, &mut w)).len();
+                o.log = d.log.borrow().clone(); o.out = w.out; o.flushes = w.flushes; o.rest = Some(rest);
+                o.final_queue.push(d.queue.error_count() as i16);
+                while let Some(e) = d.queue.pop_error() { o.final_queue.push(e.number()); if o.final_queue.len() > 64 { break; } }
             },
             Mode::RunEach(cap) => {
                 // an unbounded writer; the relation is claimed only when every message and every message's response
@@ -262,6 +274,19 @@ pub fn check(t: &OTree, sc: &Scenario) -> (RealObs, Vec<Diff>, String) {
     }
     match &sc.mode {
         Mode::RunEach(_) => {},
+        Mode::RunRaw => {
+            let mut st = RunSt::new(None);
+            let rest = oracle::spec_run(t, 0, 0, &sc.input, &mut st);
+            exp_txt = format!("calls {:?} out {:?} rest {rest} final queue {:?}", st.log.iter().filter(|e| matches!(e, OEv::Call(_))).collect::<Vec<_>>(), st.out, st.dev.queue);
+            cmp_log(&real.log, &st.log, true, false, &mut diffs);
+            if diffs.iter().any(|d| d.kind == "handler" || d.kind == "args") { return (real, diffs, exp_txt); }
+            let _ = cmp_out(&real.out, &st.out, &mut diffs);
+            let (cnt, entries) = (real.final_queue.first().copied().unwrap_or(-1), &real.final_queue[1.min(real.final_queue.len())..]);
+            if cnt as usize != st.dev.queue.len() || entries.len() != st.dev.queue.len() || entries.iter().zip(&st.dev.queue).any(|(c, e)| !exp_ok(e, *c)) {
+                diffs.push(Diff { kind: "queue", detail: format!("the queue holds {cnt} entries {entries:?} at the end, expected {:?}", st.dev.queue) });
+            }
+            if real.rest != Some(rest) { diffs.push(Diff { kind: "rest", detail: format!("run left {:?} bytes unconsumed, expected {rest}", real.rest) }); }
+        },
         Mode::Run | Mode::RunCap(_) => {
             let mut st = RunSt::new(if let Mode::RunCap(c) = sc.mode { Some(c) } else { None });
             let rest = oracle::spec_run(t, 0, 0, &sc.input, &mut st);
@@ -361,17 +386,31 @@ pub fn check(t: &OTree, sc: &Scenario) -> (RealObs, Vec<Diff>, String) {
 }
 
 fn writes_of(t: &[TEv]) -> Vec<String> { t.iter().filter_map(|e| if let TEv::Write(b) = e { Some(String::from_utf8_lossy(b).into_owned()) } else { None }).collect() }
+/// JSON string literal (Rust's {:?} escapes such as \u{b} are not JSON)
+pub fn jstr(s: &str) -> String {
+    let mut o = String::from("\"");
+    for c in s.chars() {
+        match c {
+            '"' => o.push_str("\\\""), '\\' => o.push_str("\\\\"), '\n' => o.push_str("\\n"), '\r' => o.push_str("\\r"), '\t' => o.push_str("\\t"),
+            c if (c as u32) < 0x20 || c == '\u{7f}' => o.push_str(&format!("\\u{:04x}", c as u32)),
+            c => o.push(c),
+        }
+    }
+    o.push('"');
+    o
+}
 fn hex(b: &[u8]) -> String { b.iter().map(|x| format!("{x:02x}")).collect() }
 fn unhex(s: &str) -> Vec<u8> { (0..s.len() / 2).map(|i| u8::from_str_radix(&s[2 * i..2 * i + 2], 16).unwrap()).collect() }
 pub fn sc_json(sc: &Scenario) -> String {
     let mode = match &sc.mode {
         Mode::Run => "\"mode\":\"run\"".to_string(),
+        Mode::RunRaw => "\"mode\":\"runraw\"".to_string(),
         Mode::RunEach(c) => format!("\"mode\":\"runeach\",\"cap\":{c}"),
         Mode::RunCap(c) => format!("\"mode\":\"runcap\",\"cap\":{c}"),
         Mode::Process { n, cuts, yields, fail_at } => format!("\"mode\":\"process\",\"n\":{n},\"cuts\":{cuts:?},\"yields\":{yields},\"fail_at\":{}", fail_at.map(|x| x.to_string()).unwrap_or("null".into())),
     };
     let base = match &sc.base { Some(b) => format!(",\"base\":{}", sc_json(b)), None => String::new() };
-    format!("{{{mode},\"whole\":{},\"input_hex\":\"{}\",\"input\":{:?}{base}}}", sc.whole, hex(&sc.input), String::from_utf8_lossy(&sc.input))
+    format!("{{{mode},\"whole\":{},\"input_hex\":\"{}\",\"input\":{}{base}}}", sc.whole, hex(&sc.input), jstr(&String::from_utf8_lossy(&sc.input)))
 }
 /// minimal parser for the scenario objects this program prints
 fn sc_parse(s0: &str) -> Scenario {
@@ -386,6 +425,7 @@ fn sc_parse(s0: &str) -> Scenario {
     let input = unhex(&field("input_hex").expect("input_hex"));
     let mode = match field("mode").as_deref() {
         Some("run") => Mode::Run,
+        Some("runraw") => Mode::RunRaw,
         Some("runeach") => Mode::RunEach(field("cap").unwrap().parse().unwrap()),
         Some("runcap") => Mode::RunCap(field("cap").unwrap().parse().unwrap()),
         Some("process") => Mode::Process {
@@ -405,7 +445,7 @@ fn main() {
     let t = OTree::build(oracle::DECLS);
     let opt = |k: &str, d: u64| -> u64 { a.iter().position(|x| x == k).and_then(|i| a.get(i + 1)).and_then(|v| v.parse().ok()).unwrap_or(d) };
     match a.get(1).map(|s| s.as_str()) {
-        Some("families") => { for f in gen::FAMILIES { println!("{{\"family\":\"{}\",\"properties\":{:?},\"bound\":{:?}}}", f.name, f.props, f.bound); } },
+        Some("families") => { for f in gen::FAMILIES { println!("{{\"family\":\"{}\",\"properties\":{:?},\"bound\":{}}}", f.name, f.props, jstr(f.bound)); } },
         Some("one") => {
             let sc = sc_parse(&a[2]);
             let (real, diffs, exp) = check(&t, &sc);
@@ -464,12 +504,12 @@ fn main() {
                     m += 1;
                     for d in &rel { if !kinds.contains(&d.kind) { kinds.push(d.kind); } }
                     if m <= max_report {
-                        println!("{{\"mismatch\":{{\"family\":\"{}\",\"kind\":\"{}\",\"detail\":{:?},\"expected\":{:?},\"scenario\":{}}}}}", fam.name, rel[0].kind, rel[0].detail, exp, sc_json(&sc));
+                        println!("{{\"mismatch\":{{\"family\":\"{}\",\"kind\":\"{}\",\"detail\":{},\"expected\":{},\"scenario\":{}}}}}", fam.name, rel[0].kind, jstr(&rel[0].detail), jstr(&exp), sc_json(&sc));
                     }
                 }
                 true
             });
-            println!("{{\"family\":\"{}\",\"scenarios\":{n},\"mismatches\":{m},\"kinds\":{:?},\"bound\":{:?}}}", fam.name, kinds, fam.bound);
+            println!("{{\"family\":\"{}\",\"scenarios\":{n},\"mismatches\":{m},\"kinds\":{:?},\"bound\":{}}}", fam.name, kinds, jstr(fam.bound));
             std::process::exit(if m == 0 { 0 } else { 1 });
         },
         _ => { eprintln!("usage: vx-xcheck family <name> | one <json> | families"); std::process::exit(2); },
